@@ -100,6 +100,8 @@ type c17inst struct {
 type c17world struct {
 	cs    *h.Case
 	tcp   bool
+	tls   bool // the filtering server listens on a tls:// address (c17tls.go); tcp is set too
+	ownSrv bool // the server was made by the harness itself, not by a LocalTest
 	lt    *onet.LocalTest
 	srv   *onet.Server
 	keys  map[int]*key.Pair
@@ -196,6 +198,14 @@ func (w *c17world) close() {
 	if w.lt != nil {
 		w.lt.CloseAll()
 	}
+	if w.ownSrv && w.srv != nil {
+		done := make(chan bool)
+		go func() { w.srv.Close(); close(done) }()
+		select {
+		case <-done:
+		case <-time.After(5 * time.Second):
+		}
+	}
 }
 
 func (w *c17world) stopInst(in *c17inst) {
@@ -214,7 +224,12 @@ func (w *c17world) stopInst(in *c17inst) {
 func (w *c17world) newInst(k, f int) (*c17inst, error) {
 	w.port++
 	var r *network.Router
-	if w.tcp {
+	if w.tls {
+		var err error
+		if r, err = w.newTLSInst(k, f); err != nil {
+			return nil, err
+		}
+	} else if w.tcp {
 		sid := w.ident(k, f, network.NewTCPAddress("127.0.0.1:0"))
 		hst, err := network.NewTCPHost(sid, fix.Suite)
 		if err != nil {
@@ -389,7 +404,46 @@ func c17exec(c *h.Ctx, cs *h.Case) {
 		switch {
 		case len(tk) == 3 && tk[1] == "open" && (tk[2] == "tcp" || tk[2] == "local") && w.srv == nil:
 			obs = w.open(tk[2])
+		case len(tk) == 3 && tk[1] == "open" && tk[2] == "tls" && w.srv == nil:
+			obs = w.openTLS(c.Workdir)
 		case w.srv == nil:
+		case len(tk) == 8 && tk[1] == "offercert" && w.tls:
+			var n [4]int
+			ok := true
+			for i := range n {
+				v, err := strconv.Atoi(tk[2+i])
+				if tk[2+i] == "-" && i == 2 {
+					v, err = -1, nil
+				}
+				ok = ok && err == nil && (v >= 1 || i == 2 && v == -1)
+				n[i] = v
+			}
+			idk, idf, ok2 := c17parseIdent(tk[6])
+			m, err := strconv.ParseInt(tk[7], 10, 64)
+			if ok && ok2 && err == nil {
+				o, herr := w.offerCert(n[0], n[1], n[2], n[3], idk, idf, m)
+				if herr != nil {
+					w.incon = "the raw TLS peer could not be made: " + herr.Error()
+					obs = "harness-error"
+					break
+				}
+				obs = o
+				// the peer is the holder of key n[0]: it is served only if THAT key is valid — and only under its own name
+				held := w.refValid(n[0])
+				switch {
+				case strings.HasPrefix(obs, "dispatched") && !held:
+					cs.Fail("non-member-accepted", fmt.Sprintf("the holder of key %d is in none of the sets; with a certificate naming key %d in the CommonName and %s in the URI, and the identity of key %d, it got %q", n[0], n[1], tk[4], idk, obs))
+				case strings.HasPrefix(obs, "dispatched") && idk != n[0]:
+					cs.Fail("served-under-another-key", fmt.Sprintf("the holder of key %d was served as key %d (%q)", n[0], idk, obs))
+				case held && n[0] == n[1] && n[0] == n[3] && n[0] == idk && (n[2] == -1 || n[2] == n[0]) && (!strings.HasPrefix(obs, "dispatched") || strings.HasSuffix(obs, "+closed")):
+					cs.Fail("member-refused", fmt.Sprintf("peer %d is valid by its key and presents an honest certificate; it got %q", idk, obs))
+				}
+				kind := "honest"
+				if n[0] != n[1] || n[0] != n[3] || n[0] != idk || (n[2] != -1 && n[2] != n[0]) {
+					kind = "forged"
+				}
+				tags[fmt.Sprintf("offercert:%s:held-valid=%v:%s", kind, held, strings.SplitN(obs, ":", 2)[0])] = true
+			}
 		case len(tk) == 4 && tk[1] == "set":
 			id, ctx, ok := w.setID(tk[2])
 			var peers []*network.ServerIdentity
@@ -480,6 +534,12 @@ func c17exec(c *h.Ctx, cs *h.Case) {
 						} else {
 							unknown = true
 						}
+					}
+					// the caller owns what it was given: it may edit the list in place (filter, sort, overwrite)
+					// without any later reader of the set seeing that (seeded C17r6-B: one remembered slice
+					// handed to every reader)
+					for i := range got {
+						got[i] = network.ServerIdentityID(uuid.Nil)
 					}
 					sort.Ints(ks)
 					obs = "set:" + h.Ints(ks)
@@ -629,6 +689,9 @@ func c17exec(c *h.Ctx, cs *h.Case) {
 	tr := "local"
 	if w.tcp {
 		tr = "tcp"
+	}
+	if w.tls {
+		tr = "tls"
 	}
 	cs.Outcome = tr + " " + strings.Join(tl, " ")
 	if w.incon != "" && cs.Oracle != "fail" {
@@ -962,6 +1025,71 @@ func c17gen(c *h.Ctx, yield func(*h.Case)) {
 			}
 		}
 		emit("accept-"+tr, ops...)
+	}
+	// ---- TLS listener (c17tls.go): the peer is the holder of a private key, whatever names its certificate and its
+	// identity message carry.  offercert <key held> <CN> <URI|-> <name under the signature> <identity> <m>
+	emit("corpus-tls-forged-certificate",
+		"c17 open tls",
+		"c17 offercert 9 1 9 9 1 0", // before any set: still only under a name whose key it holds
+		"c17 offercert 9 9 9 9 9 1",
+		"c17 set r01 1", "c17 set c1/02 2", "c17 set r03 -",
+		"c17 offercert 9 1 9 9 1 2", // non-member: member's key in the CN, its own in the URI and under the signature (seeded C17r6-A)
+		"c17 offercert 9 1 - 9 1 3",
+		"c17 offercert 9 1 1 1 1 4", // everything names the member, the signature is made with the wrong key
+		"c17 offercert 9 9 9 9 9 5", // honest non-member
+		"c17 offercert 9 9 1 9 9 6", // the URI names a member: it proves nothing
+		"c17 offercert 9 9 9 9 1 7", // honest certificate, the identity message claims the member's key
+		"c17 offercert 1 1 1 1 1 8", // honest member
+		"c17 offercert 2 2 - 2 2 9", // old-style certificate without URI
+		"c17 offercert 2 2 9 2 2 10",
+		"c17 offercert 1 1 1 1 2 11", // a member that claims another member's key in its identity message
+		"c17 offer 1 12", "c17 offer 9 13", "c17 offer 2:9 14", "c17 msg 1 15",
+		"c17 dial 9", "c17 get r01", "c17 get c1/02")
+	for i, nt := 0, c.Pick(8, 80); i < nt && !b7SearchOver(); i++ {
+		ops := []string{"c17 open tls"}
+		msg := 0
+		pick := func() int { return 1 + r.Intn(4) }
+		for j := r.Intn(3); j > 0; j-- {
+			msg++
+			ops = append(ops, fmt.Sprintf("c17 offercert %d %d %d %d %d %d", pick(), pick(), pick(), pick(), pick(), msg))
+		}
+		sets := []string{"r01", "c1/02", "r03"}
+		for j, ns := 0, 4+r.Intn(8); j < ns; j++ {
+			msg++
+			switch x := r.Intn(10); {
+			case x < 2:
+				var l []string
+				for k := 1; k <= 4; k++ {
+					if r.Intn(3) == 0 {
+						l = append(l, strconv.Itoa(k))
+					}
+				}
+				ops = append(ops, "c17 set "+sets[r.Intn(len(sets))]+" "+tfJoin(l))
+			case x < 3:
+				ops = append(ops, "c17 get "+sets[r.Intn(len(sets))])
+			case x < 5:
+				ops = append(ops, fmt.Sprintf("c17 offer %d %d", pick(), msg))
+			case x < 7:
+				// honest certificate (with or without URI)
+				k, u := pick(), "-"
+				if r.Intn(2) == 0 {
+					u = strconv.Itoa(k)
+				}
+				ops = append(ops, fmt.Sprintf("c17 offercert %d %d %s %d %d %d", k, k, u, k, k, msg))
+			case x < 9:
+				// the holder of a puts b's key where the identity is compared and its own where the signature is checked
+				a, b := pick(), pick()
+				u := strconv.Itoa([]int{a, b}[r.Intn(2)])
+				if r.Intn(3) == 0 {
+					u = "-"
+				}
+				ops = append(ops, fmt.Sprintf("c17 offercert %d %d %s %d %d %d", a, b, u, []int{a, b}[r.Intn(2)], b, msg))
+			default:
+				u := strconv.Itoa(pick())
+				ops = append(ops, fmt.Sprintf("c17 offercert %d %d %s %d %d %d", pick(), pick(), u, pick(), pick(), msg))
+			}
+		}
+		emit("tls-histories", ops...)
 	}
 	// ---- random histories over 3..5 set ids (router-level and context-level), 4..7 peers
 	n := b7Pick(c, 1200, 20000)
